@@ -9,13 +9,70 @@ import (
 )
 
 // containsBuiltin reports whether fn calls the named builtin.
+// containsBuiltin: every path through fn executes the builtin, directly or in a statically called helper
+// (three levels deep).
 func containsBuiltin(fn *ssa.Function, name string) bool {
+	return mustRunBuiltin(fn, name, 3)
+}
+
+func mayRunBuiltin(fn *ssa.Function, name string, depth int) bool {
+	if fn == nil || depth == 0 {
+		return false
+	}
 	for _, c := range allCalls(fn) {
 		if b, ok := c.Common().Value.(*ssa.Builtin); ok && b.Name() == name {
 			return true
 		}
+		if g := c.Common().StaticCallee(); g != nil && g != fn && mayRunBuiltin(g, name, depth-1) {
+			return true
+		}
 	}
 	return false
+}
+
+func mustRunBuiltin(fn *ssa.Function, name string, depth int) bool {
+	if fn == nil || len(fn.Blocks) == 0 || depth == 0 {
+		return false
+	}
+	does := func(b *ssa.BasicBlock) bool {
+		for _, in := range b.Instrs {
+			c, ok := in.(*ssa.Call)
+			if !ok {
+				continue
+			}
+			if bi, ok := c.Common().Value.(*ssa.Builtin); ok && bi.Name() == name {
+				return true
+			}
+			if g := c.Common().StaticCallee(); g != nil && g != fn && mustRunBuiltin(g, name, depth-1) {
+				return true
+			}
+		}
+		return false
+	}
+	seen := map[*ssa.BasicBlock]bool{}
+	var walk func(b *ssa.BasicBlock) bool
+	walk = func(b *ssa.BasicBlock) bool {
+		if seen[b] {
+			return true
+		}
+		seen[b] = true
+		if does(b) {
+			return true
+		}
+		if len(b.Succs) == 0 {
+			if _, isRet := b.Instrs[len(b.Instrs)-1].(*ssa.Return); isRet {
+				return false
+			}
+			return true // panic exit
+		}
+		for _, s := range b.Succs {
+			if !walk(s) {
+				return false
+			}
+		}
+		return true
+	}
+	return walk(fn.Blocks[0])
 }
 
 // mustCallBefore: every path from block start to any block in stop passes a call satisfying pred.
@@ -133,7 +190,7 @@ func ruleLoopSessionUpdate(p *Program, r *Result, L *ssa.Function, handles []ssa
 			if !typeIs(a[1].Type(), modPath, "Header") || !typeIs(a[2].Type(), modPath, "Handler") {
 				return false
 			}
-			if containsBuiltin(f, "delete") {
+			if mayRunBuiltin(f, "delete", 3) {
 				return false
 			}
 			updArgs = a
